@@ -29,6 +29,36 @@ HEALTH_ASSUME = [
 ]
 
 PROPS = {
+    "C03": {
+        "streams": ["persist", "storage"], "driver": {"persist": "array", "storage": "storage"}, "level": "proof",
+        "trusted_base": LEAN_TB, "assumptions": STORAGE_ASSUME + ARRAY_ASSUME + [
+            "container level: the array model's effect log is validated against the real SlabStorage call sequence on every operation; the map model likewise in C02's streams",
+            "the codec round trip used by commit_durable_on_reopen is a hypothesis here (C07)"],
+        "rule": "array histories at T in {256,257,511,512,1024,32768,random} with commits every ~{4,8,15,40}% of steps, crashes (storage and handles abandoned, array reopened from the ledger) at random points; after every commit every register is decoded by a brand-new storage and its dump compared with the model's ledger; distinct = distinct (T, length) programs",
+        "explanation": "Theorems (storage level): only_commit_touches_ledger, uncommitted_never_reaches_ledger, commit_durable_on_reopen, crash_recovers_last_commit, temp_never_written + the regenerated fact that only the commit functions call BaseStorage.Store/Remove. Tie: the composition array model + storage state machine reproduces every register (decoded dump) after every commit and the reopened tree after every crash. Oracle: reload on a fresh storage vs a shadow slice; ledger call log empty between commits.",
+    },
+    "C04": {
+        "streams": ["determ", "storage", "map"], "driver": {"storage": "storage", "map": "map"}, "level": "proof",
+        "trusted_base": LEAN_TB, "assumptions": STORAGE_ASSUME + [
+            "NOT exhibited by the model (exercised by the harness, not proved): real goroutine scheduling, Go's randomised map iteration, sync.Pool reuse, process identity",
+            "the map seed is an uninterpreted function of the root slab ID in the model; the harness recomputes circlehash(address, index) independently"],
+        "rule": "scripts of 300 array+map operations with commits, each executed under GOMAXPROCS {1,4,16} x workers {1,2,3,8,64} x {FastCommit, NondeterministicFastCommit} x ledger scheduling jitter and once in a fresh child process; distinct = distinct final ledgers",
+        "explanation": "Theorems: fastcommit_order_sorted (ascending (owner,index) call order for every write set and fault plan), lt_strict_total, fastcommit_schedule_invariant (any worker count, any finishing schedule = sequential), nondet_commit_same_final_ledger (same ledger, call multiset equal), source_premises (worker closures write-free, pools reset before Put; regenerated). Oracle: byte-identical registers, identical observations and ordered call logs across all configurations and a fresh process.",
+    },
+    "C08": {
+        "streams": ["cache", "storage"], "driver": {"storage": "storage"}, "level": "proof",
+        "trusted_base": LEAN_TB, "assumptions": STORAGE_ASSUME + [
+            "value-level model: clients re-fetch their handles after a cache drop / reopen (HandlesCurrent); stale-handle histories are outside the theorem (see DESIGN.md, finding F2)"],
+        "rule": "scripts of 250 array+map operations under maintenance schedules {never, commit after every op, commit+drop cache after every op, commit+reopen after every op, random, periodic}; distinct = distinct final ledgers",
+        "explanation": "Theorems: reload_is_identity, schedule_independent_outcomes, schedule_independent_ledger (any two schedules of {commit (both kinds), drop cache, commit+reopen} give the same observations, view and final ledger). Oracle: observations, final content, VerifyArray/VerifyMap and final registers equal across schedules on the real code.",
+    },
+    "C16": {
+        "streams": ["parallel", "storage"], "driver": {"storage": "storage"}, "level": "proof", "race": ["parallel"],
+        "trusted_base": LEAN_TB, "assumptions": STORAGE_ASSUME + [
+            "NOT exhibited by the model (exercised under the Go race detector, not proved): data races in the Go memory model, real preemption, sync.Pool internals, concurrent writes to process-wide settings"],
+        "rule": "8 client goroutines with own storages running 200-op scripts concurrently (workers 1..64, both commits, ledger jitter, GOMAXPROCS 2/8/16) vs alone; parallel preload 1..64 workers vs sequential; the same stream again in a -race build",
+        "explanation": "Theorems about the message-passing model of the worker pools: pool_results_perm, pool_results_bounded (result channel never over capacity), pool_terminates, parallel_commit_sequential_equal, parallel_preload_sequential_equal. Oracle: results equal to sequential/alone runs; zero race-detector reports.",
+    },
     "C20": {
         "streams": ["health"], "driver": {"health": "health"}, "level": "proof",
         "trusted_base": LEAN_TB, "assumptions": HEALTH_ASSUME,
